@@ -82,8 +82,46 @@ func (fr *frame) runBlock(b *ssa.BasicBlock, bc string, st *state) {
 			continue
 		}
 		es[j] = &edge{cond: cond, st: st}
+		fr.leaveEdge(b, s, cond, st)
 	}
 	fr.edges[b] = es
+}
+
+// leaveEdge checks the `leave` clauses of every loop that contains `from` but not `to` (a break, or the loop condition
+// failing): names mean the values current at the edge; loop variables not reassigned on the way mean their header value.
+func (fr *frame) leaveEdge(from, to *ssa.BasicBlock, cond string, st *state) {
+	e := fr.e
+	for hdr, li := range fr.loops {
+		if li == nil || li.spec == nil || len(li.spec.Leaves) == 0 {
+			continue
+		}
+		if !(hdr == from || li.body[from]) || hdr == to || li.body[to] {
+			continue
+		}
+		if n := len(to.Instrs); n > 0 {
+			switch to.Instrs[n-1].(type) {
+			case *ssa.Return, *ssa.Panic:
+				continue // leaving the function, not the loop: exit clauses speak there
+			}
+		}
+		env := fr.loopEnv(li, func(phi *ssa.Phi) string { return fr.vals[phi] }, st)
+		hdrLookup := env.lookup
+		env.lookup = func(name string) (binding, bool) {
+			if b, ok := fr.lookupLocal(name, from, st); ok {
+				return b, true
+			}
+			return hdrLookup(name)
+		}
+		for _, c := range li.spec.Leaves {
+			t, err := env.boolExpr(c.Text)
+			if err != nil {
+				e.errf("%s:%d: %v", c.File, c.Line, err)
+				continue
+			}
+			o := fr.oblige("leave", c.Label, cond, t, from.Instrs[len(from.Instrs)-1].Pos(), clauseProps(c, e))
+			o.Src = c.Text
+		}
+	}
 }
 
 func (fr *frame) backEdge(from, hdr *ssa.BasicBlock, cond string, st *state) {
